@@ -26,7 +26,7 @@ def psi_template():
 
     class Rule:
         def id(self):
-            return "QQQ"
+            return "zqz"
 
     sent = {"n": 7131, "c": 8353, "d0": 4, "d1": 5, "d2": 6}
     name = et.generate_psi_table_name(Rule(), sent["n"], None, "cell", (sent["d0"], sent["d1"], sent["d2"]), sent["c"])
@@ -35,11 +35,57 @@ def psi_template():
         if tmpl.count(str(v)) != 1:
             return None, name
         tmpl = tmpl.replace(str(v), "{" + k + "}")
-    if tmpl.count("QQQ") != 1:
+    if tmpl.count("zqz") != 1:
         return None, name
-    tmpl = tmpl.replace("QQQ", "{q}")
+    tmpl = tmpl.replace("zqz", "{q}")
     parts = re.split(r"(\{[a-z0-9]+\})", tmpl)
     return [p for p in parts if p], name
+
+
+def _smt2_for_template(parts, bound_digits):
+    L = ['(set-logic QF_SLIA)', '(set-option :produce-models true)',
+         '(define-fun intre () RegLan (re.union (str.to_re "0") (re.++ (re.range "1" "9") (re.* (re.range "0" "9")))))',
+         '(define-fun digit () RegLan (re.range "0" "9"))',
+         '(define-fun hex3 () RegLan ((_ re.loop 3 3) (re.union (re.range "0" "9") (re.range "a" "f"))))']
+    slots = [p[1:-1] for p in parts if p.startswith("{")]
+    for t in ("1", "2"):
+        for k in slots:
+            v = f"{k}_{t}"
+            L.append(f"(declare-const {v} String)")
+            if k == "q":
+                L.append(f"(assert (str.in_re {v} hex3))")
+            elif k.startswith("d") and bound_digits:
+                L.append(f"(assert (str.in_re {v} digit))")
+            else:
+                L.append(f"(assert (str.in_re {v} intre))")
+                L.append(f"(assert (<= (str.len {v}) 4))")
+
+    def cat(t):
+        return "(str.++ " + " ".join((f"{p[1:-1]}_{t}" if p.startswith("{") else '"' + p + '"') for p in parts) + ")"
+
+    L.append(f"(assert (= {cat('1')} {cat('2')}))")
+    L.append("(assert (or " + " ".join(f"(not (= {k}_1 {k}_2))" for k in slots) + "))")
+    L.append("(check-sat)")
+    getv = "(get-value (" + " ".join(f"{k}_{t}" for t in ("1", "2") for k in slots) + "))"
+    return "\n".join(L) + "\n", slots, getv
+
+
+def _run_smt(path):
+    """Both solvers that decide this family (cvc5 1.0.3 and z3 4.8.12 binaries); any `(error` is inconclusive."""
+    outs = {}
+    for name, cmd in (("cvc5", ["cvc5", "--strings-exp", "--tlimit=60000", str(path)]), ("z3-4.8", ["/usr/bin/z3", "-T:60", str(path)])):
+        try:
+            r = subprocess.run(cmd, capture_output=True, text=True, timeout=90)
+            out = r.stdout + r.stderr
+        except Exception as e:
+            out = f"(error {e})"
+        first = out.strip().splitlines()[0].strip() if out.strip() else "unknown"
+        if first not in ("sat", "unsat"):
+            first = "unknown"
+        elif "(error" in out and first == "unsat":
+            first = "unknown"
+        outs[name] = (first, out)
+    return outs
 
 
 def psi_injective(chk):
@@ -47,48 +93,31 @@ def psi_injective(chk):
     if parts is None:
         chk.inconc(f"table-name template could not be inferred from {raw!r}")
         return
-    intre = z3.Union(z3.Re("0"), z3.Concat(z3.Range("1", "9"), z3.Star(z3.Range("0", "9"))))
-    digit = z3.Range("0", "9")
-    hexre = z3.Loop(z3.Union(z3.Range("0", "9"), z3.Range("a", "f")), 3, 3)
-
-    def build(tag):
-        vs = {}
-        terms = []
-        for p in parts:
-            if p.startswith("{"):
-                k = p[1:-1]
-                v = z3.String(f"{k}_{tag}")
-                vs[k] = v
-                terms.append(v)
-            else:
-                terms.append(z3.StringVal(p))
-        return z3.Concat(*terms), vs
-
-    n1, v1 = build("1")
-    n2, v2 = build("2")
+    d = Path("/verif/.work/validc")
+    d.mkdir(parents=True, exist_ok=True)
     for bound_digits in (True, False):
-        s = z3.Solver()
-        s.set("timeout", 30000)
-        for vs in (v1, v2):
-            for k, v in vs.items():
-                if k == "q":
-                    s.add(z3.InRe(v, hexre))
-                elif k.startswith("d") and bound_digits:
-                    s.add(z3.InRe(v, digit))
-                else:
-                    s.add(z3.InRe(v, intre), z3.Length(v) <= 4)
-        s.add(n1 == n2, z3.Or(*[v1[k] != v2[k] for k in v1]))
+        text, slots, getv = _smt2_for_template(parts, bound_digits)
+        f = d / f"psi_{'b' if bound_digits else 'u'}.smt2"
+        f.write_text(text)
         t0 = time.time()
-        r = str(s.check())
+        outs = _run_smt(f)
+        verdicts = {k: v[0] for k, v in outs.items()}
+        decided = {v for v in verdicts.values() if v != "unknown"}
+        r = decided.pop() if len(decided) == 1 else ("unknown" if not decided else "disagree")
+        if r == "sat":
+            f.write_text(text + getv + "\n")
+            outs = _run_smt(f)
         chk.q("Q-string", r, time.time() - t0)
+        chk.extra.setdefault("string_solver_verdicts", []).append({"bounded_derivative_digits": bound_digits, **verdicts})
         chk.cases.append(f"psi-name-injective:derivative-counts-{'<=9' if bound_digits else 'unbounded'}")
-        if bound_digits:
+        if r == "disagree":
+            chk.harness_error(f"string solvers disagree on the table-name query: {verdicts}")
+        elif bound_digits:
             if r == "sat":
-                m = s.model()
-                a = {k: m.eval(v).as_string() for k, v in v1.items()}
-                b = {k: m.eval(v).as_string() for k, v in v2.items()}
-                ok = replay_psi(a, b, quiet=True)
-                if ok:
+                vals = dict(re.findall(r'\((\w+) "([^"]*)"\)', next(o for v, o in outs.values() if v == "sat")))
+                a = {k: vals.get(f"{k}_1", "0") for k in slots}
+                b = {k: vals.get(f"{k}_2", "0") for k in slots}
+                if replay_psi(a, b, quiet=True):
                     chk.violation("names:psi-table-collision", f"generate_psi_table_name gives one name for {a} and {b}", None)
                 else:
                     chk.inconc(f"psi name collision {a} / {b} not reproduced")
@@ -96,7 +125,14 @@ def psi_injective(chk):
                 chk.inconc(f"psi name injectivity: {r}")
         else:
             chk.extra["psi_name_ambiguous_beyond_9_derivatives"] = (r == "sat")
-    chk.sample({"template": "".join(parts), "query": "two argument tuples (canonical integer renderings, 3-hex rule id) with equal concatenation"})
+            # vacuity twin of the encoding: with multi-digit derivative counts the concatenation IS
+            # ambiguous (D112 = (1,12) or (11,2)) and the query must find it
+            chk.twins_run += 1
+            if r == "sat":
+                chk.twins_ok += 1
+            else:
+                chk.inconc(f"psi name twin (unbounded derivative digits) returned {r}")
+    chk.sample({"template": "".join(parts), "query": "two argument tuples (canonical integer renderings, 3-hex rule id) with equal concatenation", "solvers": "cvc5 1.0.3 --strings-exp and z3 4.8.12 (z3 5.1 times out on this family)"})
 
 
 def replay_psi(a, b, quiet=False):
